@@ -304,14 +304,44 @@ Definition posting_wellformed (p : posting) : bool :=
   (0 <? pamt p) && valid_account_name (psrc p) && valid_account_name (pdst p)
   && negb (String.eqb (psrc p) KEPT_ADDR) && negb (String.eqb (pdst p) KEPT_ADDR).
 
-Definition judge_C02 (c : icase) : bool * bool * bool :=
+(* the implementation's own posting counts after each statement (prefix executions) say which
+   postings belong to which statement: each of them must carry that statement's asset *)
+Record c02case := mk_c02case { c2_case : icase; c2_counts : list Z }.
+
+Definition stmt_asset_opt (vs : env) (s : stmt) : option (option string) :=   (* Some None: not a send *)
+  match s with
+  | StSend _ sv _ _ => match ok_opt (eval_sent_amt vs sv) with Some (a, _) => Some (Some a) | None => None end
+  | _ => Some None
+  end.
+
+Fixpoint assets_by_statement (vs : env) (ss : list stmt) (counts : list Z) (prev : Z) (ps : list posting) : bool :=
+  match ss, counts with
+  | [], [] => match ps with [] => true | _ => false end
+  | s :: ss', n :: counts' =>
+      if n <? prev then false
+      else
+        let k := Z.to_nat (n - prev) in
+        let mine := firstn k ps in
+        (Nat.eqb (List.length mine) k)
+        && match stmt_asset_opt vs s with
+           | Some (Some a) => forallb (fun p => String.eqb (passet p) a) mine
+           | Some None => Nat.eqb k 0
+           | None => false
+           end
+        && assets_by_statement vs ss' counts' n (skipn k ps)
+  | _, _ => false
+  end.
+
+Definition judge_C02 (cc : c02case) : bool * bool * bool :=
+  let c := c2_case cc in
   let agree := agree_postings c in
   match ic_obs c, model_env c with
   | ObsOk ps _ _ _, Some vs =>
-      match send_assets vs (p_stmts (ic_prog c)) with
-      | Some assets => (agree, forallb posting_wellformed ps && assets_conform assets ps, negb (Nat.eqb (List.length ps) 0))
-      | None => (agree, forallb posting_wellformed ps, false)
-      end
+      let by_stmt :=
+        if forallb (fun n => 0 <=? n) (c2_counts cc) && negb (Nat.eqb (List.length (c2_counts cc)) 0)
+        then assets_by_statement vs (p_stmts (ic_prog c)) (c2_counts cc) 0 ps
+        else match send_assets vs (p_stmts (ic_prog c)) with Some assets => assets_conform assets ps | None => true end in
+      (agree, forallb posting_wellformed ps && by_stmt, negb (Nat.eqb (List.length ps) 0))
   | ObsOk ps _ _ _, None => (agree, forallb posting_wellformed ps, false)
   | _, _ => (agree, true, false)
   end.
